@@ -44,8 +44,73 @@ func (p *pb) add(pre string, idx int) int {
 
 func (p *pb) prog() string { return strings.Join(p.ops, ";") }
 
+// sysEW: a systematic sweep (every operation x element type x operand layout x form) on one
+// small shape, so that a defect confined to one generated kernel or one dispatch path is met on
+// every run and not only when the random generator happens to draw it.
+func sysEW(prop string, r *rng, emit func(string)) {
+	sh := []int{2, 3}
+	lays := []string{"rm", "T", "stepslice", "cm"}
+	dts := []string{"i", "i64", "i32", "f64", "f32"}
+	for _, dt := range dts {
+		for _, la := range lays {
+			switch prop {
+			case "C06", "C07":
+				for _, op := range []string{"add", "sub", "mul", "div", "mod"} {
+					if op == "div" && (dt == "f64" || dt == "f32") {
+						continue // quotients are not integer valued
+					}
+					for _, lb := range lays {
+						var p pb
+						preA, ia := source(r, la, sh, 5)
+						a := p.add(preA, ia)
+						preB, ib := source(r, lb, sh, 1)
+						b := p.add(preB, ib)
+						p.ops = append(p.ops, fmt.Sprintf("bin:%s:%d:%d:safe", op, a, b))
+						emit(fmt.Sprintf("prog %s %s", dt, p.prog()))
+					}
+					for _, side := range []string{"left", "right"} {
+						var p pb
+						preA, ia := source(r, la, sh, 2)
+						a := p.add(preA, ia)
+						p.ops = append(p.ops, fmt.Sprintf("bins:%s:%d:%d:%s:safe", op, a, 7, side))
+						emit(fmt.Sprintf("prog %s %s", dt, p.prog()))
+					}
+				}
+			case "C11":
+				for _, op := range cmpOps {
+					for _, same := range []string{"bool", "same"} {
+						var p pb
+						preA, ia := source(r, la, sh, 1)
+						a := p.add(preA, ia)
+						preB, ib := source(r, lays[(len(op)+len(la))%len(lays)], sh, 3)
+						b := p.add(preB, ib)
+						p.ops = append(p.ops, fmt.Sprintf("cmp:%s:%d:%d:%s:safe", op, a, b, same))
+						emit(fmt.Sprintf("prog %s %s", dt, p.prog()))
+						for _, side := range []string{"left", "right"} {
+							var q pb
+							preA, ia := source(r, la, sh, 1)
+							a := q.add(preA, ia)
+							q.ops = append(q.ops, fmt.Sprintf("cmps:%s:%d:%d:%s:%s:safe", op, a, 4, side, same))
+							emit(fmt.Sprintf("prog %s %s", dt, q.prog()))
+						}
+					}
+				}
+			case "C12":
+				for _, op := range unOps {
+					var p pb
+					preA, ia := source(r, la, sh, -2)
+					a := p.add(preA, ia)
+					p.ops = append(p.ops, fmt.Sprintf("un:%s:%d:safe", op, a))
+					emit(fmt.Sprintf("prog %s %s", dt, p.prog()))
+				}
+			}
+		}
+	}
+}
+
 func genEW(prop, tier string, r *rng, emit func(string)) {
 	thorough := tier == "thorough"
+	sysEW(prop, r, emit)
 	n := 7000
 	if thorough {
 		n = 120000
